@@ -662,3 +662,43 @@ package utreexo
 //@   loop 1: invariant len(newSlice.positions) == len(newSlice.hashes) && len(newSlice.positions) <= iter_1 && row <= totalRows + 1 && totalRows <= 64
 //@   loop 2: invariant row <= totalRows + 1 && totalRows <= 64
 //@   loop 2: decreases int(totalRows) + 1 - int(row)
+
+// C15, the position roll-back used by genTTLs (getPrevPos = undoAdd + undoDel on the recorded positions): no index out
+// of range, termination, the positions slice keeps its length and every "created" index points into it.  Domain:
+// numLeaves <= 2^63 (DetectOffset's contract domain) and numAdds <= numLeaves (the count after a block is at least the
+// block's additions).
+
+//@ func moveDownPositions(totalRows uint8, position uint64, delPos uint64, cached []uint64) (res []uint64)
+//@   modifies cached
+//@   ensures len(res) == len(cached)
+
+//@ func undoDel(totalRows uint8, positions []uint64, deleted []uint64, numLeaves uint64) (res []uint64)
+//@   requires numLeaves <= pow2(63)
+//@   modifies positions
+//@   ensures len(res) == len(positions)
+//@   loop 1: invariant -1 <= i && i < len(deTwinedPositions)
+//@   loop 1: decreases i + 1
+
+//@ func undoSingleAdd(totalRows uint8, positions []uint64, toDestroy []uint64, numLeaves uint64) (res []uint64, td []uint64, idx int)
+//@   requires numLeaves <= pow2(63)
+//@   modifies positions, toDestroy
+//@   ensures len(res) == len(positions) && len(td) <= len(toDestroy) && -1 <= idx && idx < len(positions)
+//@   loop 1: invariant len(positions) == old(len(positions)) && len(toDestroy) <= old(len(toDestroy)) && -1 <= removedPosIdx && removedPosIdx < len(positions) && row <= 255
+//@   loop 1: decreases row + 1
+
+//@ func undoAdd(totalRows uint8, positions []uint64, origToDestroy []uint64, numAdds uint16, numLeaves uint64) (res []uint64, created []int)
+//@   requires numLeaves <= pow2(63) && uint64(numAdds) <= numLeaves
+//@   modifies positions
+//@   ensures len(res) == len(positions)
+//@   ensures forall k in 0..len(created): 0 <= created[k] && created[k] < len(positions)
+//@   loop 1: invariant len(positions) == old(len(positions)) && 0 <= i && i <= int(numAdds) && numLeaves == old(numLeaves) - uint64(i)
+//@   loop 1: invariant forall k in 0..len(created): 0 <= created[k] && created[k] < len(positions)
+//@   loop 1: decreases int(numAdds) - i
+
+//@ func getPrevPos(totalRows uint8, cached []uint64, deleted []uint64, toDestroy []uint64, numAdds uint16, numLeaves uint64) (res []uint64, created []int)
+//@   requires numLeaves <= pow2(63) && uint64(numAdds) <= numLeaves
+//@   modifies cached
+//@   ensures len(res) == len(cached)
+//@   ensures forall k in 0..len(created): 0 <= created[k] && created[k] < len(cached)
+//@   loop 1: invariant len(createdPositions) == len(created) && len(cached) == old(len(cached))
+//@   loop 2: invariant len(createdPositions) == len(created) && len(cached) == old(len(cached))
